@@ -284,6 +284,7 @@ def sibling_of(fn):
 KEYMAPS = [
     ('raw', None), ('string', None), ('pickle', None), ('pickle', 'pickle'),
     ('pickle', 'dill'), ('pickle', 'json'), ('hash', 'md5'), ('hash', 'sha1'),
+    ('chain', 'dill+md5'), ('chain', 'string+sha1'), ('chain', 'md5+string'),       # chained keymaps (a + b)
 ]
 
 
@@ -292,10 +293,10 @@ def keymap_ok(km, label, direct):
     kind, arg = km['kind'], km['arg']
     if label is None or label in ('dict', 'null'):
         return True
-    strkeys = kind in ('string', 'hash') or (kind == 'pickle' and arg in (None, 'json'))
+    strkeys = kind in ('string', 'hash', 'chain') or (kind == 'pickle' and arg in (None, 'json'))
     byteskeys = kind == 'pickle' and arg in ('pickle', 'dill')
     if label == 'dir-src':
-        return kind == 'hash'
+        return kind == 'hash' or (kind == 'chain' and arg != 'md5+string')
     if label in ('file-json', 'dir-json'):
         return strkeys
     if label.startswith('sql'):
@@ -319,6 +320,11 @@ def make_keymap(km):
         if km.get('proto') is not None:
             kw['protocol'] = km['proto']       # an option that changes the key bytes
         return picklemap(**kw)
+    if kind == 'chain':
+        parts = {'dill': lambda: picklemap(serializer='dill', **kw), 'string': lambda: stringmap(**kw),
+                 'md5': lambda: hashmap(algorithm='md5', **kw), 'sha1': lambda: hashmap(algorithm='sha1', **kw)}
+        inner, outer = arg.split('+')
+        return parts[inner]() + parts[outer]()
     return hashmap(algorithm=arg, **kw)
 
 
